@@ -144,6 +144,17 @@ Theorem C03_expand_exact :
 Proof. exact insert_placeholders_items. Qed.
 Print Assumptions C03_expand_exact.
 
+(* ... and the item-level reading is sound: every placeholder of the result was a placeholder of the
+   input or stands for a %name% of the input (name not empty, free of '%', between two literal '%');
+   a value without a literal '%' is left alone ---- *)
+Theorem C03_expand_sound :
+  (forall l n, In (Ph n) (sp_expand l) ->
+     In (Ph n) l \/
+     (n <> [] /\ ~ In c_pct n /\ exists pre post, l = pre ++ Lit c_pct :: map Lit n ++ Lit c_pct :: post)) /\
+  (forall l, existsb (fun i => match i with Lit c => N.eqb c c_pct | _ => false end) l = false -> sp_expand l = l).
+Proof. exact (conj expand_sound expand_no_pct). Qed.
+Print Assumptions C03_expand_sound.
+
 (* ---- the premises are met: parsed values are well-formed, well-formedness is preserved ---- *)
 Theorem C03_wellformed_values :
   (forall s, wfp (parse true s) = true /\ no_ph (parse true s) = true /\ wfp (parse false s) = true) /\
